@@ -275,14 +275,25 @@ def handle (ss : Slots) (args impl : List String) : Slots × String :=
       let slots := if ss.slots.length ≤ k then ss.slots ++ List.replicate (k + 1 - ss.slots.length) {} else ss.slots
       ({ slots := slots, cur := k }, res true true [] "")
     | none => (ss, bad "sel")
-  | ["cmp", a, b, sc] =>
+  | "sched" :: _ =>
+    -- seeded worker delays: the model is schedule independent; the executor reports how many commands ran
+    -- under the previous plan and how often consecutive commands ran on different shards
+    let n := (impl.getD 1 "0").toNat?.getD 0
+    let il := (impl.getD 2 "0").toNat?.getD 0
+    (ss, res true true (["sched"] ++ flag (n > 0) "jittered-commands" ++ flag (il > 0) "shards-interleaved") s!"commands={n} interleavings={il}")
+  | [op, a, b, sc] =>
+    if op != "cmp" && op != "cmpids" then
+      let st := ss.slots.getD ss.cur {}
+      let (st', r) := handle1 st args impl
+      ({ ss with slots := ss.slots.set ss.cur st' }, r)
+    else
     match a.toNat?, b.toNat?, sc.toNat? with
     | some a, some b, some sc =>
       -- the two runs must report the same grouping (up to renaming of ids) unless an exact tie was
       -- resolved somewhere in one of them (both resolutions are then outcomes of the model)
       let tie := ((ss.slots.getD a {}).tieScenes.contains sc) || ((ss.slots.getD b {}).tieScenes.contains sc)
       let same := impl.head? == some "SAME"
-      (ss, res true (same || tie) (["compare-runs"] ++ flag (!same) "runs-differ" ++ flag tie "tie-in-scene" ++
+      (ss, res true (same || tie) (["compare-runs"] ++ flag (op == "cmpids") "compare-with-ids" ++ flag (!same) "runs-differ" ++ flag tie "tie-in-scene" ++
         flag (same && (impl.getD 1 "0") != "0") "compared-nonempty") s!"same={same} tie={tie}")
     | _, _, _ => (ss, bad "cmp")
   | _ =>
